@@ -31,7 +31,7 @@ BOUND = {
 
 EXPRS = ["'lit'", "${q}", "${qg}", "concat(${q}, 'x')", "${q} = ${qg}"]
 DATASETS = [("trees", True), ("__t", False), ("a.b", False), ("1t", False), ("t t", False), (None, False), ("_ok-1", True)]
-SAVETO = [("p", True), ("name", False), ("Label", False), ("__p", False), ("1p", False), ("p q", False), ("P_2", True)]
+SAVETO = [("p", True), ("name", False), ("Label", False), ("__p", False), ("1p", False), ("p q", False), ("P_2", True), ("girth.cm", True), ("a-b", True)]
 COLS = ["entity_id", "create_if", "update_if", "label"]
 
 
@@ -70,8 +70,12 @@ def gen_table(tier):
 
 def gen_saveto_names(tier):
     for nm, _ in SAVETO:
-        for place in ("top", "group", "repeat", "on-group", "no-sheet", "on-loop", "on-audit", "on-audit-no-sheet", "select-groups", "select-repeats", "file-groups"):
+        for place in ("top", "group", "repeat", "on-group", "no-sheet", "on-loop", "on-audit", "on-audit-no-sheet", "select-groups", "select-repeats", "file-groups", "select-other", "multi-other"):
             yield {"k": "names", "st": nm, "place": place}
+    # the header of the save_to column in its other accepted spellings, with and without an entities sheet
+    for hdr in ("Save_To", "save to", "bind::entities:saveto", "SAVE_TO"):
+        for place in ("top", "no-sheet"):
+            yield {"k": "names", "st": "p", "place": place, "hdr": hdr}
 
 
 def gen_placement(tier):
@@ -148,12 +152,17 @@ def build(case):
             rows += lp
         elif place.startswith("on-audit"):
             rows.append({"type": "audit", "name": "audit", "save_to": case["st"]})
+        elif place in ("select-other", "multi-other"):
+            # the generated <name>_other question is no survey row: it saves nothing
+            rows.append({"type": ("select_one" if place == "select-other" else "select_multiple") + " c or_other", "name": "sg", "label": "SG", "save_to": case["st"], "required": "yes"})
         elif place in ("select-groups", "select-repeats", "file-groups"):
             # question types that merely contain the words group / repeat
             ty = {"select-groups": "select_one groups", "select-repeats": "select_multiple repeats", "file-groups": "select_one_from_file grouped.csv"}[place]
             rows.append({"type": ty, "name": "sg", "label": "SG", "save_to": case["st"]})
         else:
             rows += [{"type": "begin repeat", "name": "r", "label": "R"}, {"type": "text", "name": "qr", "label": "QR", "save_to": case["st"]}, {"type": "end repeat"}]
+        if case.get("hdr"):
+            rows = [{(case["hdr"] if k_ == "save_to" else k_): v_ for k_, v_ in r.items()} for r in rows]
         wb = {"survey": rows, "choices": [{"list_name": ln, "name": "x", "label": "X"} for ln in ("c", "groups", "repeats")]}
         if not place.endswith("no-sheet"):
             wb["entities"] = [{"dataset": "trees", "label": "'l'"}]
@@ -186,7 +195,7 @@ def expect_reject(case, nodes):
         return not (table_valid(eid, cif, uif, lab) and ds_ok and case["shape"] == "one")
     if case["k"] == "names":
         ok = dict(SAVETO)[case["st"]]
-        return not (ok and case["place"] in ("top", "group", "select-groups", "select-repeats", "file-groups", "on-audit"))
+        return not (ok and case["place"] in ("top", "group", "select-groups", "select-repeats", "file-groups", "on-audit", "select-other", "multi-other"))
     for i in case["sub"]:
         if nodes[i]["kind"] != "q" or repeat_ancestors(nodes, i):
             return True
